@@ -10,6 +10,17 @@ BASE = ("cd /repo && env -u TRACKLIB_VERIF_TRACE /venv/bin/python -m pytest -ra 
 
 # pid -> (module(s), technique, level text, level note, design ref)
 CHECKS = {
+    "C05": ("Resample", "TLA+ definition of temporal / spatial linear resampling (requested instants, kept instants, unique bracket, "
+            "exact rational interpolant) + transcription of the forward-only running_id cursor with its continue / break, checked "
+            "by TLC for every small track and chronologically ordered request; rows recorded from Track.resample and // judged "
+            "by ResampleTrace.tla (code->spec)",
+            "TLC: cursor loop = definition on all tracks of 2..3 (thorough 4) fixes x steps 0.5-4 s x all instant lists of length "
+            "<= 3; spatial loop = definition, output times monotone. The real resample is run with numeric steps (int and float, "
+            "dividing the duration or not, the duration and beyond), instant lists (before, at a fix, duplicated, at the end, "
+            "after), reference tracks and //, on that family and on random tracks to 12 fixes; spatial resampling on "
+            "integer-leg walks: one observation per kept instant, exact interpolated x, y, z, stamp = instant (spatial: within "
+            "1 ms), samples at k ds on the polyline, times never decrease.",
+            "TLC 1.8; multiples of 0.5 s / 0.5 units; chronological requests; npts / factor front ends not covered", "5/C05"),
     "C17": ("Kinematics", "TLA+ definitions of curvilinear abscissa (cumulated integer leg lengths) and squared speed (chord^2 / dt^2, "
             "NaN iff dt = 0) + transcription of ds / Integrator / speed(), checked by TLC on every small walk; columns recorded "
             "from computeAbsCurv and estimate_speed (computed twice) judged by KinematicsTrace.tla (code->spec)",
